@@ -581,6 +581,9 @@ func init() {
 		st.now = st.addV(st.now, args[0])
 		return nil, stNext
 	})
+	V("Sleep", func(st *State, g *Goroutine, fr *Frame, fn *ssa.Function, args []Value) (Value, status) {
+		return st.sleep(g, args[0])
+	})
 	V("NowNs", func(st *State, g *Goroutine, fr *Frame, fn *ssa.Function, args []Value) (Value, status) {
 		return st.now, stNext
 	})
